@@ -59,7 +59,7 @@ Proof.
   intros (Hpk & Hvk & Hlk & Hfo & Hcp) Hp (Hw1 & Hw2 & Hw3) HM Hrw Hsm H.
   destruct th as [c p cu ca fl ? ? ? ? ? ?]. unfold Minv, Mpc_ok, Mpres, Mload, nc_ok, in_load_window in *; simpl in *.
   rewrite Hp in Hw1. subst n.
-  destruct p; simpl in Hw2.
+  destruct p; simpl in Hw2; try (exfalso; destruct Hw1; congruence).
   all: tstep_full H. all: inv_some H; simpl.
   all: intros Hf; apply orb_false_iff in Hf; destruct Hf as [Hf1 Hf2]; try discriminate; subst;
        specialize (HM eq_refl); destruct HM as (HMc & HM1 & (HMr & HM2) & HM3); simpl in *; subst; try discriminate; try tauto.
